@@ -111,7 +111,9 @@ func ScriptStorage(long bool) *replica.Script {
 			return world.BindingMsg(sd, w.A(world.V2), w.A(world.V2), world.CosmosProof(w.A(world.V2), sd.Did, "bind "+sd.Did, wts))
 		}),
 		fx("create(G)", func(w *world.World) sdk.Msg { return &nodetypes.MsgCreate{Creator: w.A(world.G).S()} }),
-		fx("reset(G)", func(w *world.World) sdk.Msg { return &nodetypes.MsgReset{Creator: w.A(world.G).S(), Status: GatewayStatus} }),
+		fx("reset(G)", func(w *world.World) sdk.Msg {
+			return &nodetypes.MsgReset{Creator: w.A(world.G).S(), Status: GatewayStatus}
+		}),
 		fx("create(W)", func(w *world.World) sdk.Msg { return &nodetypes.MsgCreate{Creator: w.A(world.W).S()} }),
 		fx("create(G)-again(invalid)", func(w *world.World) sdk.Msg { return &nodetypes.MsgCreate{Creator: w.A(world.G).S()} }),
 	)
@@ -130,8 +132,14 @@ func ScriptStorage(long bool) *replica.Script {
 			m.Proposal.Size_ = 2000
 			return m
 		}),
-		fx("ready(o1,invalid)", func(w *world.World) sdk.Msg { g := w.A(world.G).S(); return &saotypes.MsgReady{Creator: g, Provider: g, OrderId: 1} }),
-		fx("cancel(o9,invalid)", func(w *world.World) sdk.Msg { g := w.A(world.G).S(); return &saotypes.MsgCancel{Creator: g, Provider: g, OrderId: 9} }),
+		fx("ready(o1,invalid)", func(w *world.World) sdk.Msg {
+			g := w.A(world.G).S()
+			return &saotypes.MsgReady{Creator: g, Provider: g, OrderId: 1}
+		}),
+		fx("cancel(o9,invalid)", func(w *world.World) sdk.Msg {
+			g := w.A(world.G).S()
+			return &saotypes.MsgCancel{Creator: g, Provider: g, OrderId: 9}
+		}),
 	}
 	b3 := []replica.TxSpec{completeOpen(0), completeOpen(0), completeOpen(0), completeOpen(0), completeOpen(0), completeOpen(0),
 		fx("complete(wrong sp,invalid)", func(w *world.World) sdk.Msg {
@@ -139,9 +147,11 @@ func ScriptStorage(long bool) *replica.Script {
 			return &saotypes.MsgComplete{Creator: x, Provider: x, OrderId: 1, Cid: world.Cid, Size_: 10000}
 		})}
 	b4 := []replica.TxSpec{
-		fx("renew(D1,7200)", func(w *world.World) sdk.Msg { return RenewMsg(w, world.O, world.G, world.G, 7200, 100, world.Data1, world.Data2) }),
+		fx("renew(D1,7200)", func(w *world.World) sdk.Msg {
+			return RenewMsg(w, world.O, world.G, world.G, 7200, 100, world.Data1, world.Data2)
+		}),
 		fx("permission(D1)", func(w *world.World) sdk.Msg {
-			return PermissionMsg(w, world.O, world.G, world.G, world.Data1, nil, []string{w.A(world.Q).Did})
+			return PermissionMsg(w, world.O, world.G, world.G, world.Data1, []string{w.A(world.X).Did}, nil)
 		}),
 		fx("permission(D1,stranger,invalid)", func(w *world.World) sdk.Msg {
 			return PermissionMsg(w, world.X, world.G, world.G, world.Data1, nil, []string{w.A(world.X).Did})
@@ -192,8 +202,12 @@ func ScriptStorage(long bool) *replica.Script {
 	}
 	b7 := []replica.TxSpec{completeOpen(0), completeOpen(0),
 		fx("terminate(D2,3 shards)", func(w *world.World) sdk.Msg { return TerminateMsg(w, world.O, world.G, world.G, world.Data2) }),
-		fx("removev(S4)", func(w *world.World) sdk.Msg { return &nodetypes.MsgRemoveVstorage{Creator: w.A(world.S4).S(), Size_: 1_000_000} }),
-		fx("removev(S4,too much,invalid)", func(w *world.World) sdk.Msg { return &nodetypes.MsgRemoveVstorage{Creator: w.A(world.S4).S(), Size_: 900_000_000} }),
+		fx("removev(S4)", func(w *world.World) sdk.Msg {
+			return &nodetypes.MsgRemoveVstorage{Creator: w.A(world.S4).S(), Size_: 1_000_000}
+		}),
+		fx("removev(S4,too much,invalid)", func(w *world.World) sdk.Msg {
+			return &nodetypes.MsgRemoveVstorage{Creator: w.A(world.S4).S(), Size_: 900_000_000}
+		}),
 		fx("claim(S2)", func(w *world.World) sdk.Msg { return &nodetypes.MsgClaimReward{Creator: w.A(world.S2).S()} }),
 	}
 	sc.Blocks = []replica.Block{{Txs: b1}, {Txs: b2}, {Txs: b3}, {Txs: b4}, {Txs: b5}, {Txs: b6}, {Txs: b7, SkipTo: 110}}
@@ -245,7 +259,9 @@ func ScriptStaking() *replica.Script {
 		fx("undelegate(S1,all)", func(w *world.World) sdk.Msg {
 			return &stakingtypes.MsgUndelegate{DelegatorAddress: w.A(world.S1).S(), ValidatorAddress: val(w, world.V), Amount: coin(150_000_000)}
 		}),
-		fx("removev(S2,below threshold)", func(w *world.World) sdk.Msg { return &nodetypes.MsgRemoveVstorage{Creator: w.A(world.S2).S(), Size_: 1_500_000} }),
+		fx("removev(S2,below threshold)", func(w *world.World) sdk.Msg {
+			return &nodetypes.MsgRemoveVstorage{Creator: w.A(world.S2).S(), Size_: 1_500_000}
+		}),
 		fx("reset(S2,validator V2,invalid delegation)", func(w *world.World) sdk.Msg {
 			return &nodetypes.MsgReset{Creator: w.A(world.S2).S(), Status: FullStatus, Validator: val(w, world.V2)}
 		}),
@@ -265,7 +281,9 @@ func ScriptTies() *replica.Script {
 		return &didtypes.MsgUpdatePaymentAddress{Creator: w.A(world.O).S(), AccountId: w.A(world.O).AccountId(), Did: w.A(world.O).Did}
 	}),
 		fx("create(G)", func(w *world.World) sdk.Msg { return &nodetypes.MsgCreate{Creator: w.A(world.G).S()} }),
-		fx("reset(G)", func(w *world.World) sdk.Msg { return &nodetypes.MsgReset{Creator: w.A(world.G).S(), Status: GatewayStatus} }))
+		fx("reset(G)", func(w *world.World) sdk.Msg {
+			return &nodetypes.MsgReset{Creator: w.A(world.G).S(), Status: GatewayStatus}
+		}))
 	for _, i := range []int{world.S1, world.S2, world.S3, world.S4, world.W, world.Q} {
 		i := i
 		b1 = append(b1,
@@ -291,4 +309,76 @@ func ScriptTies() *replica.Script {
 	b5 := []replica.TxSpec{completeOpen(0), completeOpen(0), completeOpen(0)}
 	sc.Blocks = []replica.Block{{Txs: b1}, {Txs: b2}, {Txs: b3}, {Txs: b4, SkipTo: 13}, {Txs: b5, SkipTo: 25}}
 	return sc
+}
+
+// ScriptSidRewards: an owner with a did:sid identity (its documents are resolved on every signature check) stores,
+// renews, updates and terminates, while block rewards are minted and the reward supply crosses its first halving
+// threshold at a height that is not a reward-adjustment height; every height up to the second adjustment height is a
+// stream position (restart / non-consensus calls between any two blocks).
+func ScriptSidRewards() *replica.Script {
+	const firstHalving = 200_000_000_000_000
+	sc := &replica.Script{Name: "S5-sid-rewards", Cfg: world.Config{BlockReward: 1_000_000, Baseline: 1, AdjustmentPeriod: 20, GenesisReward: firstHalving - 3_500_000}}
+	ts := uint64(world.BlockTime(1).Unix())
+	sd := world.NewSid("R5", "script-sid-5", ts)
+	g := func(w *world.World) string { return w.A(world.G).S() }
+	sidStore := func(name, commit string, op uint32, cid string) replica.TxSpec {
+		return replica.TxSpec{Name: name, Build: func(w *world.World, ctx sdk.Context) sdk.Msg {
+			c := commit
+			if m, ok := w.App.ModelKeeper.GetMetadata(ctx, world.Data1); ok && commit != world.Data1 {
+				c = m.Commit + "|" + commit
+			}
+			p := saotypes.Proposal{Owner: sd.Did, Provider: g(w), GroupId: "g", Duration: 3600, Replica: 1, Timeout: 100, Alias: "alias-sid", DataId: world.Data1, CommitId: c, Cid: cid, Size_: 1_000_000, Operation: op}
+			return &saotypes.MsgStore{Creator: g(w), Provider: g(w), Proposal: p, JwsSignature: world.SignKid(sd.KeyPriv, sd.Kid(sd.DocId), &p)}
+		}}
+	}
+	node := func(i int, st uint32) []replica.TxSpec {
+		return []replica.TxSpec{
+			fx(fmt.Sprintf("create(%d)", i), func(w *world.World) sdk.Msg { return &nodetypes.MsgCreate{Creator: w.A(i).S()} }),
+			fx(fmt.Sprintf("reset(%d)", i), func(w *world.World) sdk.Msg { return &nodetypes.MsgReset{Creator: w.A(i).S(), Status: st} }),
+		}
+	}
+	b1 := append(node(world.G, GatewayStatus), node(world.S1, FullStatus)...)
+	b1 = append(b1, node(world.S2, FullStatus)...)
+	b1 = append(b1,
+		fx("addv(S1)", func(w *world.World) sdk.Msg {
+			return &nodetypes.MsgAddVstorage{Creator: w.A(world.S1).S(), Size_: 10_000_000}
+		}),
+		fx("addv(S2)", func(w *world.World) sdk.Msg {
+			return &nodetypes.MsgAddVstorage{Creator: w.A(world.S2).S(), Size_: 5_000_000}
+		}),
+		fx("payaddr(O)", func(w *world.World) sdk.Msg {
+			return &didtypes.MsgUpdatePaymentAddress{Creator: w.A(world.O).S(), AccountId: w.A(world.O).AccountId(), Did: w.A(world.O).Did}
+		}),
+		fx("bind(sid)", func(w *world.World) sdk.Msg {
+			return world.BindingMsg(sd, w.A(world.T), w.A(world.T), world.CosmosProof(w.A(world.T), sd.Did, "bind "+sd.Did, ts))
+		}))
+	b2 := []replica.TxSpec{sidStore("store(sid owner)", world.Data1, 1, world.Cid)}
+	b3 := []replica.TxSpec{completeOpen(0)}
+	b4 := []replica.TxSpec{
+		fx("renew(sid owner)", func(w *world.World) sdk.Msg {
+			rp := saotypes.RenewProposal{Owner: sd.Did, Duration: 7200, Timeout: 100, Data: []string{world.Data1}}
+			return &saotypes.MsgRenew{Creator: g(w), Provider: g(w), Proposal: rp, JwsSignature: world.SignKid(sd.KeyPriv, sd.Kid(sd.DocId), &rp)}
+		}),
+		fx("claim(S1)", func(w *world.World) sdk.Msg { return &nodetypes.MsgClaimReward{Creator: w.A(world.S1).S()} }),
+	}
+	b5 := []replica.TxSpec{sidStore("update(sid owner)", commitName(5), 1, world.Cid2)}
+	b6 := []replica.TxSpec{completeOpen(0),
+		fx("permission(sid owner)", func(w *world.World) sdk.Msg {
+			pp := saotypes.PermissionProposal{Owner: sd.Did, DataId: world.Data1, ReadwriteDids: []string{w.A(world.O).Did}}
+			return &saotypes.MsgUpdataPermission{Creator: g(w), Provider: g(w), Proposal: pp, JwsSignature: world.SignKid(sd.KeyPriv, sd.Kid(sd.DocId), &pp)}
+		})}
+	b7 := []replica.TxSpec{
+		fx("claim(S1)", func(w *world.World) sdk.Msg { return &nodetypes.MsgClaimReward{Creator: w.A(world.S1).S()} }),
+		fx("claim(S2)", func(w *world.World) sdk.Msg { return &nodetypes.MsgClaimReward{Creator: w.A(world.S2).S()} }),
+		fx("terminate(sid owner)", func(w *world.World) sdk.Msg {
+			tp := saotypes.TerminateProposal{Owner: sd.Did, DataId: world.Data1}
+			return &saotypes.MsgTerminate{Creator: g(w), Provider: g(w), Proposal: tp, JwsSignature: world.SignKid(sd.KeyPriv, sd.Kid(sd.DocId), &tp)}
+		})}
+	sc.Blocks = []replica.Block{{Txs: b1}, {Txs: b2}, {Txs: b3}, {Txs: b4}, {Txs: b5}, {Txs: b6, SkipTo: 42, EveryHeight: true}, {Txs: b7}}
+	return sc
+}
+
+// AllScripts lists every engine-R script (the child processes of the restart leg look them up by name).
+func AllScripts() []*replica.Script {
+	return []*replica.Script{ScriptStorage(false), ScriptStaking(), ScriptTies(), ScriptSidRewards(), ScriptStorage(true)}
 }
